@@ -257,7 +257,7 @@ impl<'a> Gen<'a> {
                 9 if self.k.links => {
                     self.kinds.insert("a");
                     let ida = self.idattr();
-                    let nm = if self.k.ids && self.r.p(10) {
+                    let nm = if self.k.ids && self.r.p(25) {
                         if self.k.unique {
                             self.counter += 1;
                             format!(" name=nm{}", self.counter)
@@ -273,11 +273,11 @@ impl<'a> Gen<'a> {
                         for _ in 0..1 + self.r.b(14) {
                             h.push_str(self.r.pick(&["例", "え", "日本語", "a", "bc", "/", "e\u{301}", ".jp", "ページ", "x", "-", "字"]));
                         }
-                        out.push_str(&format!("<a href=\"{h}\"{ida}{nm}>"));
+                        out.push_str(&format!("<a href=\"{h}\"{}>", if self.r.p(50) { format!("{ida}{nm}") } else { format!("{nm}{ida}") }));
                     } else if self.k.href_digits {
-                        out.push_str(&format!("<a href=\"/{}/\"{ida}{nm}>", self.r.b(9)));
+                        out.push_str(&format!("<a href=\"/{}/\"{}>", self.r.b(9), if self.r.p(50) { format!("{ida}{nm}") } else { format!("{nm}{ida}") }));
                     } else {
-                        out.push_str(&format!("<a href=\"http://u{}/\"{ida}{nm}>", self.r.b(9)));
+                        out.push_str(&format!("<a href=\"http://u{}/\"{}>", self.r.b(9), if self.r.p(50) { format!("{ida}{nm}") } else { format!("{nm}{ida}") }));
                     }
                     if self.r.p(92) {
                         self.inline(d - 1, out);
@@ -351,6 +351,11 @@ impl<'a> Gen<'a> {
                 let ida = self.idattr();
                 out.push_str(&format!("<ul{ida}>"));
                 for _ in 0..1 + self.r.b(4) {
+                    // now and then a stray child that is not an item: empty or non-empty inline elements, text, a block
+                    if self.r.p(6) {
+                        let stray: &str = self.r.pick(&["<a></a>", "<a name=nm1></a>", "<span></span>", "<b></b>", "<a>x</a>", "<em>y</em>", "<p>z</p>", "<a href=\"/2/\"></a>", "<i> </i>"]);
+                        out.push_str(stray);
+                    }
                     let ida = self.idattr();
                     out.push_str(&format!("<li{ida}>"));
                     self.item_content(d, out);
@@ -358,6 +363,10 @@ impl<'a> Gen<'a> {
                     if self.r.p(30) {
                         out.push('\n');
                     }
+                }
+                if self.r.p(4) {
+                    let stray: &str = self.r.pick(&["<a></a>", "<span></span>", "<code></code>", "<a>x</a>"]);
+                    out.push_str(stray);
                 }
                 out.push_str("</ul>");
             }
@@ -581,7 +590,7 @@ pub fn selector(r: &mut R) -> String {
             s.push_str(r.pick(&[".a", ".b", ".c-d", ".a.b", ".b.a", ".a.a", ".a.b.a", ".c-d.a"]));
         }
         if r.p(15) {
-            s.push_str(r.pick(&["#i1", "#i2", "#i3", "#i7"]));
+            s.push_str(r.pick(&["#i1", "#i2", "#i3", "#i7", "#nm1", "#nm2", "#nm4", "#nm0"]));
         }
         if r.p(15) {
             s.push_str(&format!(":nth-child({})", r.pick(&["2n+1", "odd", "even", "3", "n", "-n+3", "2n", "-2n-1", "+3n - 2", "2n +1", "0n+0", "10n+11", "99999999999", "-n-2147483647", "3n+99999999999"])));
